@@ -2182,7 +2182,11 @@ def m_check_frame(self, st, pre, c, label):
                 cells = fp.get(key, [])
             g = z3.Implies(z3.And([r < nxt0] + [r != cz for cz in cells]),
                            z3.Select(a1, r) == z3.Select(a0, r))
-        self.add_obligation(st, 'frame', '%s: %s unchanged outside modifies' % (label, key), g, 'modifies ' + ', '.join(c.modifies))
+        lab = '%s: %s unchanged outside modifies' % (label, key)
+        if lab in c.known:
+            self.clause_obligation(st, c, 'frame', lab, g, 'modifies ' + ', '.join(c.modifies), dict(self.fn_env), self.fn_pre)
+        else:
+            self.add_obligation(st, 'frame', lab, g, 'modifies ' + ', '.join(c.modifies))
 
 
 # ====================================================================== function driver
@@ -2197,7 +2201,7 @@ def m_verify_function(self, c):
     self.bound_vars = set()
     self.frame_axioms = {}
     del T.MODREG[:]
-    node, seg, sha = find_function(c.name)
+    node, seg, sha = find_function(c.target)
     self.source_sha = sha
     body = strip_docstring(node.body) if not isinstance(node, ast.Lambda) else [ast.Return(value=node.body)]
     # number loops in source order, relative line numbers for stable path ids
@@ -2259,7 +2263,7 @@ def m_verify_function(self, c):
     argnames = [a.arg for a in node.args.args] + ([node.args.kwarg.arg] if node.args.kwarg else [])
     declared = [p for p in c.params if not p.startswith('ghost_')]
     if argnames != declared:
-        raise Untranslated('signature of %s is %s but the contract declares %s' % (c.name, argnames, declared))
+        raise Untranslated('signature of %s is %s but the contract declares %s' % (c.target, argnames, declared))
     for r in list(c.requires) + list(c.free_requires):
         st.assume(self.spec_bool(st, r, env))
     for gname, gexpr in c.ghost.items():
